@@ -28,6 +28,7 @@ type specEnv struct {
 	resNames []string
 	locals  func(name string) (tval, bool)
 	hash    func(name string) (Term, bool)
+	resLoc  map[int]*Loc // results that are pointers to a cell allocated by the function
 }
 
 func (env *specEnv) clone() *specEnv {
@@ -406,8 +407,23 @@ func (e *enc) specGlobal(env *specEnv, pkg *types.Package, name string) (tval, e
 	return tval{}, fmt.Errorf("unknown identifier %q in package %s", name, pkg.Name())
 }
 
+func resultIndex(name string) int {
+	if name == "result" {
+		return 0
+	}
+	if strings.HasPrefix(name, "result") && len(name) == 7 && name[6] >= '0' && name[6] <= '9' {
+		return int(name[6] - '0')
+	}
+	return -1
+}
+
 func (e *enc) specDeref(env *specEnv, x SExpr) (tval, error) {
 	if id, ok := x.(*SIdent); ok {
+		if ri := resultIndex(id.Name); ri >= 0 && env.resLoc != nil {
+			if l, ok := env.resLoc[ri]; ok && l.ty != nil {
+				return e.mkT(e.readIn(env.mem, l), l.ty), nil
+			}
+		}
 		if l, ok := env.ptrLoc[id.Name]; ok {
 			if l.ty == nil {
 				return tval{}, fmt.Errorf("dereference of opaque location %s", id.Name)
@@ -663,6 +679,47 @@ func (e *enc) specCall(env *specEnv, n *SCall) (tval, error) {
 			return tval{}, fmt.Errorf("SeqEq needs two slices of the same type")
 		}
 		return bl(e.seqEq(as[0], as[1]))
+	case "GetText", "GetLine", "GetColumn", "GetTokenType", "GetChildCount":
+		as, err := args()
+		if err != nil {
+			return tval{}, err
+		}
+		if len(as) != 1 {
+			return tval{}, fmt.Errorf("%s takes one argument", n.Fun)
+		}
+		rs, rty := "Int", types.Type(intTy)
+		if n.Fun == "GetText" {
+			rs, rty = "String", strTy
+		}
+		f := e.uf(fmt.Sprintf("nm_%s_Int_0", n.Fun), []string{"Int"}, rs)
+		return tval{fmt.Sprintf("(%s %s)", f, as[0].t), rty, rs}, nil
+	case "ReMatch":
+		// ReMatch(s, "go regexp literal"): s contains a match of the expression (anchors honoured)
+		if len(n.Args) != 2 {
+			return tval{}, fmt.Errorf("ReMatch(s, pattern)")
+		}
+		lit, ok := n.Args[1].(*SStr)
+		if !ok {
+			return tval{}, fmt.Errorf("ReMatch needs a literal pattern")
+		}
+		sv, err := e.specX(env, n.Args[0])
+		if err != nil {
+			return tval{}, err
+		}
+		re, err := regexToSMT(lit.V)
+		if err != nil {
+			return tval{}, err
+		}
+		return bl(fmt.Sprintf("(str.in_re %s %s)", sv.t, re.unanchored()))
+	case "TrimSpace", "TrimLeft":
+		as, err := args()
+		if err != nil {
+			return tval{}, err
+		}
+		if n.Fun == "TrimSpace" {
+			return tval{fmt.Sprintf("(TrimSpaceF %s)", as[0].t), strTy, "String"}, nil
+		}
+		return tval{fmt.Sprintf("(TrimLeftF %s %s)", as[0].t, as[1].t), strTy, "String"}, nil
 	case "HasPrefix", "HasSuffix", "Contains", "IndexOf", "ReplaceAll", "Itoa", "Upper", "Lower", "RuneCount", "At":
 		as, err := args()
 		if err != nil {
@@ -684,8 +741,10 @@ func (e *enc) specCall(env *specEnv, n *SCall) (tval, error) {
 		case "Itoa":
 			return tval{fmt.Sprintf("(Itoa %s)", as[0].t), strTy, "String"}, nil
 		case "Upper":
+			e.caseAxioms()
 			return tval{fmt.Sprintf("(Upper %s)", as[0].t), strTy, "String"}, nil
 		case "Lower":
+			e.caseAxioms()
 			return tval{fmt.Sprintf("(Lower %s)", as[0].t), strTy, "String"}, nil
 		case "RuneCount":
 			e.uf("RuneCount", []string{"String"}, "Int")
